@@ -624,7 +624,8 @@ func (app *App) handleTrustedProxy(ipAddress string) {
 		if ip == nil {
 			log.Warnf("IP address %q could not be parsed", ipAddress)
 		} else {
-			app.config.TrustProxyConfig.ips[ipAddress] = struct{}{}
+			// IsProxyTrusted looks the peer up by its canonical text form
+			app.config.TrustProxyConfig.ips[ip.String()] = struct{}{}
 		}
 	}
 }
